@@ -311,8 +311,8 @@ impl AsDeliveryState for Option<DeliveryState> {
 pub(crate) struct Sealed {}
 
 pub(crate) fn is_consecutive(left: &DeliveryNumber, right: &DeliveryNumber) -> bool {
-    // Assume ascending order
-    right - left == 1
+    // Assume ascending (serial-number) order
+    right.wrapping_sub(*left) == 1
 }
 
 #[cfg(test)]
